@@ -330,9 +330,9 @@ func init() {
 		Name: "c06.W2.end-blocked-on-full-write-queue", Prop: "C06", MaxSteps: 200000,
 		Bounds: func(thorough bool) vexp.Bounds {
 			if thorough {
-				return vexp.Bounds{P: 2, F: 1, E: 0}
+				return vexp.Bounds{P: 1, F: 1, E: 0}
 			}
-			return vexp.Bounds{P: 1, F: 1, E: 0}
+			return vexp.Bounds{P: 1, F: 0, E: 0}
 		},
 		Configs: func(thorough bool) []map[string]int {
 			var out []map[string]int
